@@ -3,6 +3,8 @@ package zlint
 import (
 	"time"
 
+	"github.com/zmap/zcrypto/encoding/asn1"
+
 	"github.com/zmap/zcrypto/x509"
 	"github.com/zmap/zlint/v3/lint"
 	zz "github.com/zmap/zlint/v3/zzverif"
@@ -29,6 +31,34 @@ type fwStub struct {
 var fwSources = []lint.LintSource{lint.RFC5280, lint.CABFBaselineRequirements, lint.CABFSMIMEBaselineRequirements, lint.CABFCSBaselineRequirements}
 
 var zeroTime time.Time
+
+type fwScope struct {
+	eku     []x509.ExtKeyUsage
+	unknown []asn1.ObjectIdentifier
+	pol     []asn1.ObjectIdentifier
+	mail    []string
+}
+
+var fwCSPolicy = asn1.ObjectIdentifier{2, 23, 140, 1, 4, 1}
+var fwSMIMEPolicy = asn1.ObjectIdentifier{2, 23, 140, 1, 5, 1, 1}
+var fwDVPolicy = asn1.ObjectIdentifier{2, 23, 140, 1, 2, 1}
+
+// certificates in, out of and across the three scopes
+var fwScopePool = []fwScope{
+	{},
+	{eku: []x509.ExtKeyUsage{x509.ExtKeyUsageServerAuth}},
+	{eku: []x509.ExtKeyUsage{x509.ExtKeyUsageClientAuth}},
+	{eku: []x509.ExtKeyUsage{x509.ExtKeyUsageEmailProtection}, mail: []string{"a@example.com"}},
+	{eku: []x509.ExtKeyUsage{x509.ExtKeyUsageEmailProtection}, pol: []asn1.ObjectIdentifier{fwCSPolicy}},
+	{eku: []x509.ExtKeyUsage{x509.ExtKeyUsageCodeSigning}, pol: []asn1.ObjectIdentifier{fwCSPolicy}},
+	{pol: []asn1.ObjectIdentifier{fwCSPolicy}},
+	{eku: []x509.ExtKeyUsage{x509.ExtKeyUsageTimeStamping, x509.ExtKeyUsageClientAuth}, pol: []asn1.ObjectIdentifier{fwCSPolicy}},
+	{eku: []x509.ExtKeyUsage{x509.ExtKeyUsageAny}},
+	{unknown: []asn1.ObjectIdentifier{{1, 3, 6, 1, 4, 1, 311, 10, 3, 12}}},
+	{eku: []x509.ExtKeyUsage{x509.ExtKeyUsageClientAuth}, pol: []asn1.ObjectIdentifier{fwDVPolicy}},
+	{eku: []x509.ExtKeyUsage{x509.ExtKeyUsageClientAuth}, pol: []asn1.ObjectIdentifier{fwSMIMEPolicy}, mail: []string{"a@example.com"}},
+	{mail: []string{"a@example.com"}},
+}
 
 var fwNames = []string{"e_stub_a", "w_stub_b", "n_stub_c", "e_stub_d"}
 
@@ -78,6 +108,14 @@ func fwLint(kind int, r lint.Registry) (*ResultSet, time.Time, *x509.Certificate
 	switch kind {
 	case 0:
 		c := zz.Lazy[x509.Certificate]("c")
+		if zz.Param("fw.scopepool", 0) > 0 {
+			// replayable variant: the scope-relevant content is drawn from a pool and the real scope predicates
+			// decide (no stub), so a gate that disagrees with the documented predicate yields a certificate
+			i := zz.Int()
+			zz.Assume(i >= 0 && i < len(fwScopePool))
+			p := fwScopePool[i]
+			c.ExtKeyUsage, c.UnknownExtKeyUsage, c.PolicyIdentifiers, c.EmailAddresses, c.OtherNames = p.eku, p.unknown, p.pol, p.mail, nil
+		}
 		if zz.Param("fw.outofscope", 0) > 0 {
 			// a client-authentication certificate: outside the TLS, S/MIME and code-signing scopes
 			c.ExtKeyUsage = []x509.ExtKeyUsage{x509.ExtKeyUsageClientAuth}
@@ -337,4 +375,33 @@ func VerifC07Independence() {
 	zz.Assert(zz.Implies(part.WarningsPresent, full.WarningsPresent), "a warning flag raised by the filtered run is raised by the full run")
 	zz.Assert(zz.Implies(part.ErrorsPresent, full.ErrorsPresent), "an error flag raised by the filtered run is raised by the full run")
 	zz.Assert(zz.Implies(part.FatalsPresent, full.FatalsPresent), "a fatal flag raised by the filtered run is raised by the full run")
+}
+
+// VerifC04FreshInstance: every execution gets its own instance from the
+// registered constructor - also the second, third ... execution of the same
+// registered lint (an instance kept from an earlier run would carry state from
+// one object into the next).
+func VerifC04FreshInstance() {
+	kind := zz.Param("fw.kind", 0)
+	r, stubs := fwSetup(kind, 1, false, false, false)
+	st := stubs[0]
+	obj := fwObject(kind)
+	var insts []interface{}
+	for run := 0; run < 3; run++ {
+		lint.ZZClearLog()
+		rs := fwRun(kind, obj, r)
+		zz.Assert(rs != nil && rs.Results[st.name] != nil, "the lint's result is present")
+		news := 0
+		for _, e := range fwEvents(0) {
+			if e.What == "new" {
+				news++
+				insts = append(insts, e.Inst)
+			}
+		}
+		zz.Assert(news == 1, "exactly one instance is created per execution")
+	}
+	zz.Cover("three executions")
+	if len(insts) == 3 {
+		zz.Assert(insts[0] != insts[1] && insts[1] != insts[2] && insts[0] != insts[2], "executions do not share an instance")
+	}
 }
